@@ -259,4 +259,843 @@ theorem cast_ne_str_guards (S : Strconv) (c : CastCfg) (s t : Str) (h : cast S c
       | true => simp [hs, hr, hg] at h
       | false => exact ⟨rfl, rfl, rfl, cast_eq_chain S c s t hs hr hg⟩
 
+/-! ### association-list helpers -/
+
+theorem Cast.mem_insert (k : Str) (v : Val) : ∀ (na : Entries) (e : Str × Val),
+    e ∈ insert k v na → e = (k, v) ∨ e ∈ na := by
+  intro na
+  induction na with
+  | nil => intro e h; simp [insert] at h; exact Or.inl h
+  | cons hd rest ih =>
+    obtain ⟨k', v'⟩ := hd
+    intro e h
+    unfold insert at h
+    split at h
+    · simp only [List.mem_cons] at h ⊢
+      rcases h with h | h
+      · exact Or.inl h
+      · exact Or.inr (Or.inr h)
+    · simp only [List.mem_cons] at h ⊢
+      rcases h with h | h
+      · exact Or.inr (Or.inl h)
+      · rcases ih e h with h | h
+        · exact Or.inl h
+        · exact Or.inr (Or.inr h)
+
+theorem Cast.lookup_mem (k : Str) : ∀ (na : Entries) (v : Val), lookup k na = some v → (k, v) ∈ na := by
+  intro na
+  induction na with
+  | nil => intro v h; simp [lookup] at h
+  | cons hd rest ih =>
+    obtain ⟨k', v'⟩ := hd
+    intro v h
+    unfold lookup at h
+    split at h
+    · rename_i hk; cases h; subst hk; simp
+    · exact List.mem_cons_of_mem _ (ih v h)
+
+/-! ### "only string leaves" -/
+
+def Val.isNum : Val → Bool | .num _ => true | _ => false
+
+mutual
+/-- every leaf is a string; with `seqOk` a map entry `_seq` may also hold a number -/
+def strLeaves (seqOk : Bool) : Val → Bool
+  | .str _ => true
+  | .list xs => strLeavesList seqOk xs
+  | .map kvs => strLeavesEntries seqOk kvs
+  | _ => false
+def strLeavesList (seqOk : Bool) : List Val → Bool
+  | [] => true
+  | x :: xs => strLeaves seqOk x && strLeavesList seqOk xs
+def strLeavesEntries (seqOk : Bool) : Entries → Bool
+  | [] => true
+  | (k, v) :: rest =>
+      (strLeaves seqOk v || (seqOk && k == "_seq".toList && v.isNum)) && strLeavesEntries seqOk rest
+end
+
+/-- strings only, and numbers only under the key `_seq` -/
+def onlyStrLeaves (v : Val) : Bool := strLeaves true v
+
+/-- strings only -/
+def allStrLeaves (v : Val) : Bool := strLeaves false v
+
+mutual
+theorem strLeaves_mono : ∀ (v : Val), strLeaves false v = true → strLeaves true v = true
+  | .null, h => by simp [strLeaves] at h
+  | .bool _, h => by simp [strLeaves] at h
+  | .num _, h => by simp [strLeaves] at h
+  | .str _, _ => by simp [strLeaves]
+  | .list xs, h => by
+      simp only [strLeaves] at h ⊢; exact strLeavesList_mono xs h
+  | .map kvs, h => by
+      simp only [strLeaves] at h ⊢; exact strLeavesEntries_mono kvs h
+theorem strLeavesList_mono : ∀ (xs : List Val), strLeavesList false xs = true → strLeavesList true xs = true
+  | [], _ => by simp [strLeavesList]
+  | x :: xs, h => by
+      simp only [strLeavesList, Bool.and_eq_true] at h ⊢
+      exact ⟨strLeaves_mono x h.1, strLeavesList_mono xs h.2⟩
+theorem strLeavesEntries_mono : ∀ (kvs : Entries), strLeavesEntries false kvs = true → strLeavesEntries true kvs = true
+  | [], _ => by simp [strLeavesEntries]
+  | (k, v) :: rest, h => by
+      simp only [strLeavesEntries, Bool.and_eq_true, Bool.or_eq_true, Bool.false_and, Bool.false_eq_true,
+        or_false] at h ⊢
+      exact ⟨Or.inl (strLeaves_mono v h.1), strLeavesEntries_mono rest h.2⟩
+end
+
+theorem strLeaves_of_cfg (b : Bool) (v : Val) (h : strLeaves b v = true) : onlyStrLeaves v = true := by
+  cases b with
+  | true => exact h
+  | false => exact strLeaves_mono v h
+
+theorem strLeavesList_append (b : Bool) : ∀ (xs ys : List Val),
+    strLeavesList b (xs ++ ys) = (strLeavesList b xs && strLeavesList b ys) := by
+  intro xs
+  induction xs with
+  | nil => intro ys; simp [strLeavesList]
+  | cons x xs ih => intro ys; simp [strLeavesList, ih, Bool.and_assoc]
+
+/-- the loose entries predicate, pointwise -/
+theorem strLeavesEntries_iff (b : Bool) : ∀ (kvs : Entries), strLeavesEntries b kvs = true ↔
+    ∀ e ∈ kvs, strLeaves b e.2 = true ∨ (b = true ∧ e.1 = "_seq".toList ∧ e.2.isNum = true) := by
+  intro kvs
+  induction kvs with
+  | nil => simp [strLeavesEntries]
+  | cons hd rest ih =>
+    obtain ⟨k, v⟩ := hd
+    simp only [strLeavesEntries, Bool.and_eq_true, Bool.or_eq_true, beq_iff_eq, ih, List.mem_cons,
+      forall_eq_or_imp, and_assoc]
+
+/-- the strict entries predicate (the element map under construction: no numbers at all) -/
+def strictEntries (b : Bool) (na : Entries) : Prop := ∀ e ∈ na, strLeaves b e.2 = true
+
+theorem strictEntries_nil (b : Bool) : strictEntries b [] := by
+  intro e h; simp at h
+
+theorem strictEntries_loose (b : Bool) (na : Entries) (h : strictEntries b na) :
+    strLeavesEntries b na = true :=
+  (strLeavesEntries_iff b na).2 (fun e he => Or.inl (h e he))
+
+theorem strictEntries_insert (b : Bool) (na : Entries) (k : Str) (v : Val)
+    (h : strictEntries b na) (hv : strLeaves b v = true) : strictEntries b (insert k v na) := by
+  intro e he
+  rcases Cast.mem_insert k v na e he with rfl | he
+  · exact hv
+  · exact h e he
+
+theorem strictEntries_lookup (b : Bool) (na : Entries) (k : Str) (v : Val)
+    (h : strictEntries b na) (hl : lookup k na = some v) : strLeaves b v = true :=
+  h _ (Cast.lookup_mem k na v hl)
+
+theorem strictEntries_addChild (b : Bool) (na : Entries) (k : Str) (v : Val)
+    (h : strictEntries b na) (hv : strLeaves b v = true) : strictEntries b (addChild na k v) := by
+  unfold addChild
+  split
+  · rename_i xs hl
+    have := strictEntries_lookup b na k _ h hl
+    simp only [strLeaves] at this
+    apply strictEntries_insert b na k _ h
+    simp [strLeaves, strLeavesList_append, this, strLeavesList, hv]
+  · rename_i old _ hl
+    have := strictEntries_lookup b na k _ h hl
+    apply strictEntries_insert b na k _ h
+    simp [strLeaves, strLeavesList, this, hv]
+  · exact strictEntries_insert b na k v h hv
+
+theorem strLeaves_seqDecorate (cfg : DecCfg) (seq : Nat) (v : Val)
+    (hv : strLeaves cfg.seqNum v = true) : strLeaves cfg.seqNum (seqDecorate cfg seq v).1 = true := by
+  unfold seqDecorate
+  cases hb : cfg.seqNum with
+  | false => simpa [hb] using hv
+  | true =>
+    rw [hb] at hv
+    have hseq : ∀ (kvs : Entries) (x : Str), strLeavesEntries true kvs = true →
+        strLeavesEntries true (insert "_seq".toList (.num x) kvs) = true := by
+      intro kvs x hk
+      rw [strLeavesEntries_iff] at hk ⊢
+      intro e he
+      rcases Cast.mem_insert _ _ kvs e he with rfl | he
+      · exact Or.inr ⟨rfl, rfl, rfl⟩
+      · exact hk e he
+    cases v with
+    | null => simp [strLeaves] at hv
+    | bool _ => simp [strLeaves] at hv
+    | num _ => simp [strLeaves] at hv
+    | list xs => simpa using hv
+    | map kvs =>
+      simp only [strLeaves] at hv
+      simp only [Bool.not_true, Bool.false_eq_true, if_false, strLeaves]
+      exact hseq kvs _ hv
+    | str s =>
+      simp only [Bool.not_true, Bool.false_eq_true, if_false, strLeaves]
+      apply hseq
+      simp [strLeavesEntries, strLeaves]
+
+theorem strLeaves_finishElem (cfg : DecCfg) (b : Bool) (na : Entries) (n : Option Val)
+    (h : strictEntries b na) (hn : ∀ x, n = some x → strLeaves b x = true) :
+    strLeaves b (finishElem cfg na n) = true := by
+  unfold finishElem
+  cases n with
+  | none =>
+    simp only
+    split
+    · simp [strLeaves]
+    · simp only [strLeaves]; exact strictEntries_loose b na h
+  | some v =>
+    simp only
+    split
+    · exact hn v rfl
+    · simp only [strLeaves]
+      exact strictEntries_loose b _ (strictEntries_insert b na _ v h (hn v rfl))
+
+theorem strict_onText (cfg : DecCfg) (S : Strconv) (b : Bool) (skey : Str) (na : Entries)
+    (n : Option Val) (s : Str) (hr : cfg.cast.r = false)
+    (h : strictEntries b na) (hn : ∀ x, n = some x → strLeaves b x = true) :
+    strictEntries b (onText cfg S skey na n s).1 ∧
+      ∀ x, (onText cfg S skey na n s).2 = some x → strLeaves b x = true := by
+  unfold onText
+  simp only
+  split
+  · exact ⟨h, hn⟩
+  · split
+    · refine ⟨strictEntries_insert b na _ _ h ?_, hn⟩
+      rw [cast_off S _ _ _ hr]; simp [strLeaves]
+    · refine ⟨h, ?_⟩
+      intro x hx
+      rw [cast_off S _ _ _ hr] at hx
+      cases hx; simp [strLeaves]
+
+theorem strict_loadAttrs (cfg : DecCfg) (S : Strconv) (b : Bool) (hr : cfg.cast.r = false)
+    (attrs : List Attr) : strictEntries b (loadAttrs cfg S attrs) := by
+  unfold loadAttrs
+  suffices H : ∀ (attrs : List Attr) (acc : Entries), strictEntries b acc →
+      strictEntries b (attrs.foldl (fun na a =>
+        insert (attrKey cfg S a.name) (cast S cfg.cast (escDecIf cfg a.value) (attrKey cfg S a.name)) na) acc) from
+    H attrs [] (strictEntries_nil b)
+  intro attrs
+  induction attrs with
+  | nil => intro acc h; exact h
+  | cons a rest ih =>
+    intro acc h
+    simp only [List.foldl_cons]
+    apply ih
+    apply strictEntries_insert b acc _ _ h
+    rw [cast_off S _ _ _ hr]; simp [strLeaves]
+
+theorem strLeaves_parseElem (cfg : DecCfg) (S : Strconv) (fin : StreamEnd) (hr : cfg.cast.r = false) :
+    ∀ (f : Nat) (skey : Str) (na : Entries) (n : Option Val) (seq : Nat) (pend : Option Str)
+      (toks : List Tok) (v : Val) (rest : List Tok),
+      strictEntries cfg.seqNum na → (∀ x, n = some x → strLeaves cfg.seqNum x = true) →
+      parseElem cfg S fin f skey na n seq pend toks = .ok (v, rest) →
+      strLeaves cfg.seqNum v = true := by
+  intro f
+  induction f with
+  | zero => intro skey na n seq pend toks v rest _ _ h; simp [parseElem] at h
+  | succ f ih =>
+    intro skey na n seq pend toks v rest hna hn h
+    cases toks with
+    | nil =>
+      simp only [parseElem] at h
+      cases fin <;> simp at h
+    | cons tok toks =>
+      cases tok with
+      | start sp name attrs =>
+        simp only [parseElem] at h
+        split at h
+        · rename_i v1 rest1 h1
+          have hv1 := ih _ _ _ _ _ _ _ _ (strict_loadAttrs cfg S cfg.seqNum hr attrs)
+            (by intro x hx; cases hx) h1
+          have hv1' := strLeaves_seqDecorate cfg seq v1 hv1
+          exact ih _ _ _ _ _ _ _ _ (strictEntries_addChild _ na _ _ hna hv1') hn h
+        all_goals cases h
+      | stop sp name =>
+        simp only [parseElem] at h
+        cases h
+        exact strLeaves_finishElem cfg _ na n hna hn
+      | text s =>
+        simp only [parseElem] at h
+        have := strict_onText cfg S cfg.seqNum skey na n (pend.getD [] ++ s) hr hna hn
+        exact ih _ _ _ _ _ _ _ _ this.1 this.2 h
+      | comment s => simp only [parseElem] at h; exact ih _ _ _ _ _ _ _ _ hna hn h
+      | procinst a b => simp only [parseElem] at h; exact ih _ _ _ _ _ _ _ _ hna hn h
+      | directive s => simp only [parseElem] at h; exact ih _ _ _ _ _ _ _ _ hna hn h
+
+theorem strLeaves_decodeTop (cfg : DecCfg) (S : Strconv) (fin : StreamEnd) (hr : cfg.cast.r = false) :
+    ∀ (f : Nat) (toks : List Tok) (v : Val) (rest : List Tok),
+      decodeTop cfg S fin f toks = .ok (v, rest) → strLeaves cfg.seqNum v = true := by
+  intro f
+  induction f with
+  | zero => intro toks v rest h; simp [decodeTop] at h
+  | succ f ih =>
+    intro toks v rest h
+    cases toks with
+    | nil =>
+      simp only [decodeTop] at h
+      cases fin <;> simp at h
+    | cons tok toks =>
+      cases tok with
+      | start sp name attrs =>
+        simp only [decodeTop] at h
+        split at h
+        · rename_i v1 rest1 h1
+          have hv1 := strLeaves_parseElem cfg S fin hr _ _ _ _ _ _ _ _ _
+            (strict_loadAttrs cfg S cfg.seqNum hr attrs) (by intro x hx; cases hx) h1
+          cases h
+          simp [strLeaves, strLeavesEntries, hv1]
+        all_goals cases h
+      | stop sp name => simp only [decodeTop] at h; exact ih _ _ _ h
+      | text s => simp only [decodeTop] at h; exact ih _ _ _ h
+      | comment s => simp only [decodeTop] at h; exact ih _ _ _ h
+      | procinst a b => simp only [decodeTop] at h; exact ih _ _ _ h
+      | directive s => simp only [decodeTop] at h; exact ih _ _ _ h
+
+theorem strLeaves_newMapXml (cfg : DecCfg) (S : Strconv) (fin : StreamEnd) (toks : List Tok) (v : Val)
+    (hr : cfg.cast.r = false) (h : newMapXml cfg S toks fin = .ok v) :
+    strLeaves cfg.seqNum v = true := by
+  unfold newMapXml at h
+  split at h
+  · rename_i v1 rest h1
+    cases h
+    exact strLeaves_decodeTop cfg S fin hr _ _ _ _ h1
+  all_goals cases h
+
+/-! ### the leaf-wise cast relation -/
+
+mutual
+/-- `CastRel S c v0 v`: `v` is `v0` with each string leaf `s` replaced by `cast S c s t` for some
+    key `t` (the empty value `""` of an empty element is never passed to `cast` and stays `""`);
+    same shape, same keys in the same order, non-string leaves equal -/
+def CastRel (S : Strconv) (c : CastCfg) : Val → Val → Prop
+  | .str s, w => (s = [] ∧ w = .str []) ∨ ∃ t, w = cast S c s t
+  | .list xs, w => ∃ ys, w = .list ys ∧ CastRelList S c xs ys
+  | .map kvs, w => ∃ kvs', w = .map kvs' ∧ CastRelEntries S c kvs kvs'
+  | .null, w => w = .null
+  | .bool b, w => w = .bool b
+  | .num x, w => w = .num x
+def CastRelList (S : Strconv) (c : CastCfg) : List Val → List Val → Prop
+  | [], ys => ys = []
+  | x :: xs, ys => ∃ y ys', ys = y :: ys' ∧ CastRel S c x y ∧ CastRelList S c xs ys'
+def CastRelEntries (S : Strconv) (c : CastCfg) : Entries → Entries → Prop
+  | [], b => b = []
+  | (k, v) :: rest, b =>
+      ∃ w rest', b = (k, w) :: rest' ∧ CastRel S c v w ∧ CastRelEntries S c rest rest'
+end
+
+section Rel
+variable (S : Strconv) (c : CastCfg)
+
+theorem CastRel_str_cast (s t : Str) : CastRel S c (.str s) (cast S c s t) := by
+  unfold CastRel; exact Or.inr ⟨t, rfl⟩
+
+theorem CastRel_str_empty : CastRel S c (.str []) (.str []) := by
+  unfold CastRel; exact Or.inl ⟨rfl, rfl⟩
+
+theorem CastRel_list (xs ys : List Val) :
+    CastRel S c (.list xs) (.list ys) ↔ CastRelList S c xs ys := by
+  constructor
+  · intro h; unfold CastRel at h; obtain ⟨ys', he, h⟩ := h; cases he; exact h
+  · intro h; unfold CastRel; exact ⟨ys, rfl, h⟩
+
+theorem CastRel_map (a b : Entries) :
+    CastRel S c (.map a) (.map b) ↔ CastRelEntries S c a b := by
+  constructor
+  · intro h; unfold CastRel at h; obtain ⟨b', he, h⟩ := h; cases he; exact h
+  · intro h; unfold CastRel; exact ⟨b, rfl, h⟩
+
+theorem CastRelList_nil : CastRelList S c [] [] := by unfold CastRelList; rfl
+
+theorem CastRelList_cons (x y : Val) (xs ys : List Val) :
+    CastRelList S c (x :: xs) (y :: ys) ↔ CastRel S c x y ∧ CastRelList S c xs ys := by
+  constructor
+  · intro h; unfold CastRelList at h; obtain ⟨y', ys', he, h1, h2⟩ := h; cases he; exact ⟨h1, h2⟩
+  · intro h; unfold CastRelList; exact ⟨y, ys, rfl, h.1, h.2⟩
+
+theorem CastRelEntries_nil : CastRelEntries S c [] [] := by unfold CastRelEntries; rfl
+
+theorem CastRelEntries_cons (k k' : Str) (v w : Val) (a b : Entries) :
+    CastRelEntries S c ((k, v) :: a) ((k', w) :: b) ↔
+      k = k' ∧ CastRel S c v w ∧ CastRelEntries S c a b := by
+  constructor
+  · intro h; unfold CastRelEntries at h; obtain ⟨w', b', he, h1, h2⟩ := h; cases he; exact ⟨rfl, h1, h2⟩
+  · intro h; obtain ⟨rfl, h1, h2⟩ := h; unfold CastRelEntries; exact ⟨w, b, rfl, h1, h2⟩
+
+theorem CastRelList_append : ∀ (xs ys xs' ys' : List Val), CastRelList S c xs ys →
+    CastRelList S c xs' ys' → CastRelList S c (xs ++ xs') (ys ++ ys') := by
+  intro xs
+  induction xs with
+  | nil => intro ys xs' ys' h h'; unfold CastRelList at h; subst h; simpa using h'
+  | cons x xs ih =>
+    intro ys xs' ys' h h'
+    unfold CastRelList at h
+    obtain ⟨y, ys1, rfl, h1, h2⟩ := h
+    rw [List.cons_append, List.cons_append, CastRelList_cons]
+    exact ⟨h1, ih _ _ _ h2 h'⟩
+
+/-- same keys, in the same order -/
+theorem CastRelEntries_keys : ∀ (a b : Entries), CastRelEntries S c a b → keys a = keys b := by
+  intro a
+  induction a with
+  | nil => intro b h; unfold CastRelEntries at h; subst h; rfl
+  | cons hd rest ih =>
+    obtain ⟨k, v⟩ := hd
+    intro b h
+    unfold CastRelEntries at h
+    obtain ⟨w, b', rfl, _, h2⟩ := h
+    simp only [keys, List.map_cons] at ih ⊢
+    rw [ih b' h2]
+
+theorem CastRelList_length : ∀ (a b : List Val), CastRelList S c a b → a.length = b.length := by
+  intro a
+  induction a with
+  | nil => intro b h; unfold CastRelList at h; subst h; rfl
+  | cons x xs ih =>
+    intro b h
+    unfold CastRelList at h
+    obtain ⟨y, ys, rfl, _, h2⟩ := h
+    simp [ih ys h2]
+
+theorem CastRelEntries_isEmpty (a b : Entries) (h : CastRelEntries S c a b) :
+    b.isEmpty = a.isEmpty := by
+  cases a with
+  | nil => unfold CastRelEntries at h; subst h; rfl
+  | cons hd rest =>
+    obtain ⟨k, v⟩ := hd
+    unfold CastRelEntries at h
+    obtain ⟨w, b', rfl, _, _⟩ := h
+    rfl
+
+/-- relation on optional values (`lookup` results, the pending text value `n`) -/
+def CastRelOpt : Option Val → Option Val → Prop
+  | none, none => True
+  | some v, some w => CastRel S c v w
+  | _, _ => False
+
+theorem CastRelEntries_lookup (k : Str) : ∀ (a b : Entries), CastRelEntries S c a b →
+    CastRelOpt S c (lookup k a) (lookup k b) := by
+  intro a
+  induction a with
+  | nil => intro b h; unfold CastRelEntries at h; subst h; simp [lookup, CastRelOpt]
+  | cons hd rest ih =>
+    obtain ⟨k', v⟩ := hd
+    intro b h
+    unfold CastRelEntries at h
+    obtain ⟨w, b', rfl, h1, h2⟩ := h
+    unfold lookup
+    by_cases hk : k = k'
+    · simp only [hk, if_true]; exact h1
+    · simp only [hk, if_false]; exact ih b' h2
+
+theorem CastRelEntries_insert (k : Str) (v w : Val) (hv : CastRel S c v w) :
+    ∀ (a b : Entries), CastRelEntries S c a b → CastRelEntries S c (insert k v a) (insert k w b) := by
+  intro a
+  induction a with
+  | nil =>
+    intro b h; unfold CastRelEntries at h; subst h
+    simp only [insert]
+    exact (CastRelEntries_cons S c _ _ _ _ _ _).2 ⟨rfl, hv, CastRelEntries_nil S c⟩
+  | cons hd rest ih =>
+    obtain ⟨k', v'⟩ := hd
+    intro b h
+    unfold CastRelEntries at h
+    obtain ⟨w', b', rfl, h1, h2⟩ := h
+    unfold insert
+    by_cases hk : k = k'
+    · simp only [hk, if_true]
+      exact (CastRelEntries_cons S c _ _ _ _ _ _).2 ⟨rfl, hv, h2⟩
+    · simp only [hk, if_false]
+      exact (CastRelEntries_cons S c _ _ _ _ _ _).2 ⟨rfl, h1, ih b' h2⟩
+
+/-! shapes agree: a cast result is never a list, a map or null -/
+
+def Val.isScalar : Val → Bool
+  | .bool _ => true
+  | .num _ => true
+  | .str _ => true
+  | _ => false
+
+theorem cast_isScalar (s t : Str) : (cast S c s t).isScalar = true := by
+  rcases cast_result S c s t with h | ⟨x, h⟩ | ⟨b, h⟩ <;> rw [h] <;> rfl
+
+theorem CastRel_isScalar (v w : Val) (h : CastRel S c v w) : w.isScalar = v.isScalar := by
+  cases v with
+  | str s =>
+    unfold CastRel at h
+    rcases h with ⟨_, rfl⟩ | ⟨t, rfl⟩
+    · rfl
+    · exact cast_isScalar S c s t
+  | list xs => unfold CastRel at h; obtain ⟨ys, rfl, _⟩ := h; rfl
+  | map a => unfold CastRel at h; obtain ⟨b, rfl, _⟩ := h; rfl
+  | null => unfold CastRel at h; subst h; rfl
+  | bool b => unfold CastRel at h; subst h; rfl
+  | num x => unfold CastRel at h; subst h; rfl
+
+theorem isScalar_not_list {v : Val} (h : v.isScalar = true) : v.isList = false := by
+  cases v <;> simp_all [Val.isScalar, Val.isList]
+
+/-! `addChild` by cases -/
+
+theorem addChild_none (na : Entries) (k : Str) (v : Val) (h : lookup k na = none) :
+    addChild na k v = insert k v na := by
+  unfold addChild; rw [h]
+
+theorem addChild_list (na : Entries) (k : Str) (v : Val) (xs : List Val)
+    (h : lookup k na = some (.list xs)) : addChild na k v = insert k (.list (xs ++ [v])) na := by
+  unfold addChild; rw [h]
+
+theorem addChild_other (na : Entries) (k : Str) (v old : Val)
+    (h : lookup k na = some old) (hl : old.isList = false) :
+    addChild na k v = insert k (.list [old, v]) na := by
+  unfold addChild; rw [h]
+  cases old <;> simp_all [Val.isList]
+
+theorem CastRel_isList (v w : Val) (h : CastRel S c v w) : w.isList = v.isList := by
+  cases v with
+  | str s =>
+    have := CastRel_isScalar S c _ _ h
+    exact isScalar_not_list this
+  | list xs => unfold CastRel at h; obtain ⟨ys, rfl, _⟩ := h; rfl
+  | map a => unfold CastRel at h; obtain ⟨b, rfl, _⟩ := h; rfl
+  | null => unfold CastRel at h; subst h; rfl
+  | bool b => unfold CastRel at h; subst h; rfl
+  | num x => unfold CastRel at h; subst h; rfl
+
+theorem CastRelEntries_addChild (a b : Entries) (k : Str) (v w : Val)
+    (hE : CastRelEntries S c a b) (hv : CastRel S c v w) :
+    CastRelEntries S c (addChild a k v) (addChild b k w) := by
+  have hl := CastRelEntries_lookup S c k a b hE
+  cases ha : lookup k a with
+  | none =>
+    cases hb : lookup k b with
+    | none =>
+      rw [addChild_none a k v ha, addChild_none b k w hb]
+      exact CastRelEntries_insert S c k v w hv a b hE
+    | some _ => rw [ha, hb] at hl; exact hl.elim
+  | some old =>
+    cases hb : lookup k b with
+    | none => rw [ha, hb] at hl; exact hl.elim
+    | some wold =>
+      rw [ha, hb] at hl
+      have hl : CastRel S c old wold := hl
+      cases hol : old.isList with
+      | true =>
+        cases old with
+        | list xs =>
+          have hl' := hl
+          unfold CastRel at hl'
+          obtain ⟨ys, rfl, hxs⟩ := hl'
+          rw [addChild_list a k v xs ha, addChild_list b k w ys hb]
+          apply CastRelEntries_insert S c k _ _ _ a b hE
+          rw [CastRel_list]
+          exact CastRelList_append S c _ _ _ _ hxs
+            ((CastRelList_cons S c _ _ _ _).2 ⟨hv, CastRelList_nil S c⟩)
+        | _ => simp [Val.isList] at hol
+      | false =>
+        have hwl : wold.isList = false := by rw [CastRel_isList S c _ _ hl]; exact hol
+        rw [addChild_other a k v old ha hol, addChild_other b k w wold hb hwl]
+        apply CastRelEntries_insert S c k _ _ _ a b hE
+        rw [CastRel_list]
+        exact (CastRelList_cons S c _ _ _ _).2
+          ⟨hl, (CastRelList_cons S c _ _ _ _).2 ⟨hv, CastRelList_nil S c⟩⟩
+
+/-! `seqDecorate` by cases -/
+
+theorem seqDecorate_off (cfg : DecCfg) (seq : Nat) (v : Val) (h : cfg.seqNum = false) :
+    seqDecorate cfg seq v = (v, seq) := by
+  unfold seqDecorate; simp [h]
+
+theorem seqDecorate_scalar (cfg : DecCfg) (seq : Nat) (v : Val) (h : cfg.seqNum = true)
+    (hv : v.isScalar = true) :
+    seqDecorate cfg seq v =
+      (.map (insert "_seq".toList (.num ("i:".toList ++ natToStr seq)) [(cfg.textK, v)]), seq + 1) := by
+  unfold seqDecorate
+  cases v <;> simp_all [Val.isScalar]
+
+theorem CastRel_seqDecorate (cfg : DecCfg) (seq : Nat) (v w : Val) (h : CastRel S c v w) :
+    CastRel S c (seqDecorate cfg seq v).1 (seqDecorate cfg seq w).1 ∧
+      (seqDecorate cfg seq w).2 = (seqDecorate cfg seq v).2 := by
+  cases hs : cfg.seqNum with
+  | false => rw [seqDecorate_off cfg seq v hs, seqDecorate_off cfg seq w hs]; exact ⟨h, rfl⟩
+  | true =>
+    have hnum : CastRel S c (.num ("i:".toList ++ natToStr seq)) (.num ("i:".toList ++ natToStr seq)) := by
+      unfold CastRel; rfl
+    cases hv : v.isScalar with
+    | true =>
+      have hw : w.isScalar = true := by rw [CastRel_isScalar S c _ _ h]; exact hv
+      rw [seqDecorate_scalar cfg seq v hs hv, seqDecorate_scalar cfg seq w hs hw]
+      refine ⟨?_, rfl⟩
+      rw [CastRel_map]
+      apply CastRelEntries_insert S c _ _ _ hnum
+      exact (CastRelEntries_cons S c _ _ _ _ _ _).2 ⟨rfl, h, CastRelEntries_nil S c⟩
+    | false =>
+      cases v with
+      | str s => simp [Val.isScalar] at hv
+      | bool b => simp [Val.isScalar] at hv
+      | num x => simp [Val.isScalar] at hv
+      | null =>
+        unfold CastRel at h; subst h
+        exact ⟨by simp only [seqDecorate, hs]; unfold CastRel; rfl, rfl⟩
+      | list xs =>
+        have h' := h
+        unfold CastRel at h'; obtain ⟨ys, rfl, _⟩ := h'
+        simp only [seqDecorate, hs]
+        exact ⟨h, rfl⟩
+      | map a =>
+        have h' := h
+        unfold CastRel at h'; obtain ⟨b, rfl, hab⟩ := h'
+        simp only [seqDecorate, hs, Bool.not_true, Bool.false_eq_true, if_false]
+        refine ⟨?_, trivial⟩
+        rw [CastRel_map]
+        exact CastRelEntries_insert S c _ _ _ hnum a b hab
+
+theorem CastRel_finishElem (cfg : DecCfg) (na nb : Entries) (n m : Option Val)
+    (hE : CastRelEntries S c na nb) (hn : CastRelOpt S c n m) :
+    CastRel S c (finishElem cfg na n) (finishElem cfg nb m) := by
+  have he := CastRelEntries_isEmpty S c na nb hE
+  unfold finishElem
+  rw [he]
+  cases n with
+  | none =>
+    cases m with
+    | some _ => exact hn.elim
+    | none =>
+      simp only
+      split
+      · exact CastRel_str_empty S c
+      · rw [CastRel_map]; exact hE
+  | some v =>
+    cases m with
+    | none => exact hn.elim
+    | some w =>
+      have hn : CastRel S c v w := hn
+      simp only
+      split
+      · exact hn
+      · rw [CastRel_map]; exact CastRelEntries_insert S c _ v w hn na nb hE
+
+end Rel
+
+/-! ### the un-cast configuration -/
+
+/-- `cfg` with the cast flag off, everything else unchanged -/
+def uncastCfg (cfg : DecCfg) : DecCfg := { cfg with cast := { cfg.cast with r := false } }
+
+theorem uncastCfg_r (cfg : DecCfg) : (uncastCfg cfg).cast.r = false := rfl
+
+theorem cast_uncast (S : Strconv) (cfg : DecCfg) (s t : Str) :
+    cast S (uncastCfg cfg).cast s t = .str s := cast_off S _ s t rfl
+
+theorem CastRel_onText (cfg : DecCfg) (S : Strconv) (skey : Str) (na nb : Entries)
+    (n m : Option Val) (s : Str)
+    (hE : CastRelEntries S cfg.cast na nb) (hn : CastRelOpt S cfg.cast n m) :
+    CastRelEntries S cfg.cast (onText (uncastCfg cfg) S skey na n s).1 (onText cfg S skey nb m s).1 ∧
+      CastRelOpt S cfg.cast (onText (uncastCfg cfg) S skey na n s).2 (onText cfg S skey nb m s).2 := by
+  have he := CastRelEntries_isEmpty S cfg.cast na nb hE
+  unfold onText
+  have h1 : trimSet (uncastCfg cfg) = trimSet cfg := rfl
+  have h2 : ∀ x, escDecIf (uncastCfg cfg) x = escDecIf cfg x := fun _ => rfl
+  have h3 : (uncastCfg cfg).textK = cfg.textK := rfl
+  have h4 : (uncastCfg cfg).asMap = cfg.asMap := rfl
+  simp only [h1, h2, h3, h4, he, cast_uncast]
+  split
+  · exact ⟨hE, hn⟩
+  · split
+    · exact ⟨CastRelEntries_insert S cfg.cast _ _ _ (CastRel_str_cast S cfg.cast _ _) na nb hE, hn⟩
+    · exact ⟨hE, CastRel_str_cast S cfg.cast _ _⟩
+
+theorem CastRel_loadAttrs (cfg : DecCfg) (S : Strconv) (attrs : List Attr) :
+    CastRelEntries S cfg.cast (loadAttrs (uncastCfg cfg) S attrs) (loadAttrs cfg S attrs) := by
+  unfold loadAttrs
+  have h1 : ∀ x, attrKey (uncastCfg cfg) S x = attrKey cfg S x := fun _ => rfl
+  have h2 : ∀ x, escDecIf (uncastCfg cfg) x = escDecIf cfg x := fun _ => rfl
+  simp only [h1, h2, cast_uncast]
+  suffices H : ∀ (attrs : List Attr) (a b : Entries), CastRelEntries S cfg.cast a b →
+      CastRelEntries S cfg.cast
+        (attrs.foldl (fun na a => insert (attrKey cfg S a.name) (.str (escDecIf cfg a.value)) na) a)
+        (attrs.foldl (fun na a => insert (attrKey cfg S a.name)
+          (cast S cfg.cast (escDecIf cfg a.value) (attrKey cfg S a.name)) na) b) from
+    H attrs [] [] (CastRelEntries_nil S cfg.cast)
+  intro attrs
+  induction attrs with
+  | nil => intro a b h; exact h
+  | cons x rest ih =>
+    intro a b h
+    simp only [List.foldl_cons]
+    apply ih
+    exact CastRelEntries_insert S cfg.cast _ _ _ (CastRel_str_cast S cfg.cast _ _) a b h
+
+/-- outcomes of the token loop: identical control flow, related values, same unread tokens -/
+def CastRelOut (S : Strconv) (c : CastCfg) :
+    Outcome (Val × List Tok) → Outcome (Val × List Tok) → Prop
+  | .ok (v, r), .ok (w, r') => CastRel S c v w ∧ r = r'
+  | .eof, .eof => True
+  | .syntax, .syntax => True
+  | .err a, .err b => a = b
+  | .panic a, .panic b => a = b
+  | _, _ => False
+
+theorem CastRel_parseElem (cfg : DecCfg) (S : Strconv) (fin : StreamEnd) :
+    ∀ (f : Nat) (skey : Str) (na nb : Entries) (n m : Option Val) (seq : Nat) (pend : Option Str)
+      (toks : List Tok),
+      CastRelEntries S cfg.cast na nb → CastRelOpt S cfg.cast n m →
+      CastRelOut S cfg.cast (parseElem (uncastCfg cfg) S fin f skey na n seq pend toks)
+        (parseElem cfg S fin f skey nb m seq pend toks) := by
+  intro f
+  induction f with
+  | zero => intro skey na nb n m seq pend toks _ _; simp [parseElem, CastRelOut]
+  | succ f ih =>
+    intro skey na nb n m seq pend toks hE hn
+    cases toks with
+    | nil => cases fin <;> simp [parseElem, CastRelOut]
+    | cons tok toks =>
+      cases tok with
+      | start sp name attrs =>
+        simp only [parseElem]
+        have hk : elemKey (uncastCfg cfg) S name = elemKey cfg S name := rfl
+        rw [hk]
+        have h1 := ih (elemKey cfg S name) _ _ none none 0 none toks
+          (CastRel_loadAttrs cfg S attrs) (by simp [CastRelOpt])
+        revert h1
+        cases parseElem (uncastCfg cfg) S fin f (elemKey cfg S name) (loadAttrs (uncastCfg cfg) S attrs)
+            none 0 none toks with
+        | ok p0 =>
+          obtain ⟨v0, r0⟩ := p0
+          cases parseElem cfg S fin f (elemKey cfg S name) (loadAttrs cfg S attrs) none 0 none toks with
+          | ok p1 =>
+            obtain ⟨v1, r1⟩ := p1
+            intro h1
+            simp only [CastRelOut] at h1
+            obtain ⟨hv, rfl⟩ := h1
+            simp only
+            have hd := CastRel_seqDecorate S cfg.cast cfg seq v0 v1 hv
+            have hsd : seqDecorate (uncastCfg cfg) seq v0 = seqDecorate cfg seq v0 := rfl
+            rw [hsd, hd.2]
+            exact ih skey _ _ n m _ none r0
+              (CastRelEntries_addChild S cfg.cast na nb _ _ _ hE hd.1) hn
+          | eof => intro h1; simp [CastRelOut] at h1
+          | «syntax» => intro h1; simp [CastRelOut] at h1
+          | err k => intro h1; simp [CastRelOut] at h1
+          | panic s => intro h1; simp [CastRelOut] at h1
+        | eof =>
+          cases parseElem cfg S fin f (elemKey cfg S name) (loadAttrs cfg S attrs) none 0 none toks <;>
+            intro h1 <;> simp [CastRelOut] at h1 ⊢
+        | «syntax» =>
+          cases parseElem cfg S fin f (elemKey cfg S name) (loadAttrs cfg S attrs) none 0 none toks <;>
+            intro h1 <;> simp [CastRelOut] at h1 ⊢
+        | err k =>
+          cases parseElem cfg S fin f (elemKey cfg S name) (loadAttrs cfg S attrs) none 0 none toks <;>
+            intro h1 <;> simp [CastRelOut] at h1 ⊢
+          exact h1
+        | panic s =>
+          cases parseElem cfg S fin f (elemKey cfg S name) (loadAttrs cfg S attrs) none 0 none toks <;>
+            intro h1 <;> simp [CastRelOut] at h1 ⊢
+          exact h1
+      | stop sp name =>
+        simp only [parseElem, CastRelOut]
+        exact ⟨CastRel_finishElem S cfg.cast cfg na nb n m hE hn, trivial⟩
+      | text s =>
+        simp only [parseElem]
+        have := CastRel_onText cfg S skey na nb n m (pend.getD [] ++ s) hE hn
+        exact ih skey _ _ _ _ seq _ toks this.1 this.2
+      | comment s => simp only [parseElem]; exact ih _ _ _ _ _ _ _ _ hE hn
+      | procinst a b => simp only [parseElem]; exact ih _ _ _ _ _ _ _ _ hE hn
+      | directive s => simp only [parseElem]; exact ih _ _ _ _ _ _ _ _ hE hn
+
+theorem CastRel_decodeTop (cfg : DecCfg) (S : Strconv) (fin : StreamEnd) :
+    ∀ (f : Nat) (toks : List Tok),
+      CastRelOut S cfg.cast (decodeTop (uncastCfg cfg) S fin f toks) (decodeTop cfg S fin f toks) := by
+  intro f
+  induction f with
+  | zero => intro toks; simp [decodeTop, CastRelOut]
+  | succ f ih =>
+    intro toks
+    cases toks with
+    | nil => cases fin <;> simp [decodeTop, CastRelOut]
+    | cons tok toks =>
+      cases tok with
+      | start sp name attrs =>
+        simp only [decodeTop]
+        have hk : elemKey (uncastCfg cfg) S name = elemKey cfg S name := rfl
+        rw [hk]
+        have h1 := CastRel_parseElem cfg S fin f (elemKey cfg S name) _ _ none none 0 none toks
+          (CastRel_loadAttrs cfg S attrs) (by simp [CastRelOpt])
+        revert h1
+        cases parseElem (uncastCfg cfg) S fin f (elemKey cfg S name) (loadAttrs (uncastCfg cfg) S attrs)
+            none 0 none toks with
+        | ok p0 =>
+          obtain ⟨v0, r0⟩ := p0
+          cases parseElem cfg S fin f (elemKey cfg S name) (loadAttrs cfg S attrs) none 0 none toks with
+          | ok p1 =>
+            obtain ⟨v1, r1⟩ := p1
+            intro h1
+            simp only [CastRelOut] at h1 ⊢
+            refine ⟨?_, h1.2⟩
+            rw [CastRel_map]
+            exact (CastRelEntries_cons S cfg.cast _ _ _ _ _ _).2 ⟨rfl, h1.1, CastRelEntries_nil S cfg.cast⟩
+          | eof => intro h1; simp [CastRelOut] at h1
+          | «syntax» => intro h1; simp [CastRelOut] at h1
+          | err k => intro h1; simp [CastRelOut] at h1
+          | panic s => intro h1; simp [CastRelOut] at h1
+        | eof =>
+          cases parseElem cfg S fin f (elemKey cfg S name) (loadAttrs cfg S attrs) none 0 none toks <;>
+            intro h1 <;> simp [CastRelOut] at h1 ⊢
+        | «syntax» =>
+          cases parseElem cfg S fin f (elemKey cfg S name) (loadAttrs cfg S attrs) none 0 none toks <;>
+            intro h1 <;> simp [CastRelOut] at h1 ⊢
+        | err k =>
+          cases parseElem cfg S fin f (elemKey cfg S name) (loadAttrs cfg S attrs) none 0 none toks <;>
+            intro h1 <;> simp [CastRelOut] at h1 ⊢
+          exact h1
+        | panic s =>
+          cases parseElem cfg S fin f (elemKey cfg S name) (loadAttrs cfg S attrs) none 0 none toks <;>
+            intro h1 <;> simp [CastRelOut] at h1 ⊢
+          exact h1
+      | stop sp name => simp only [decodeTop]; exact ih _
+      | text s => simp only [decodeTop]; exact ih _
+      | comment s => simp only [decodeTop]; exact ih _
+      | procinst a b => simp only [decodeTop]; exact ih _
+      | directive s => simp only [decodeTop]; exact ih _
+
+/-- outcomes of `NewMapXml`: identical control flow, related values -/
+def CastRelOutV (S : Strconv) (c : CastCfg) : Outcome Val → Outcome Val → Prop
+  | .ok v, .ok w => CastRel S c v w
+  | .eof, .eof => True
+  | .syntax, .syntax => True
+  | .err a, .err b => a = b
+  | .panic a, .panic b => a = b
+  | _, _ => False
+
+theorem CastRel_newMapXml (cfg : DecCfg) (S : Strconv) (fin : StreamEnd) (toks : List Tok) :
+    CastRelOutV S cfg.cast (newMapXml (uncastCfg cfg) S toks fin) (newMapXml cfg S toks fin) := by
+  unfold newMapXml
+  have h1 := CastRel_decodeTop cfg S fin (toks.length + 1) toks
+  revert h1
+  cases decodeTop (uncastCfg cfg) S fin (toks.length + 1) toks with
+  | ok p0 =>
+    obtain ⟨v0, r0⟩ := p0
+    cases decodeTop cfg S fin (toks.length + 1) toks with
+    | ok p1 =>
+      obtain ⟨v1, r1⟩ := p1
+      intro h1
+      simp only [CastRelOut] at h1
+      simp only [CastRelOutV]
+      exact h1.1
+    | eof => intro h1; simp [CastRelOut] at h1
+    | «syntax» => intro h1; simp [CastRelOut] at h1
+    | err k => intro h1; simp [CastRelOut] at h1
+    | panic s => intro h1; simp [CastRelOut] at h1
+  | eof =>
+    cases decodeTop cfg S fin (toks.length + 1) toks <;>
+      intro h1 <;> simp [CastRelOut, CastRelOutV] at h1 ⊢
+  | «syntax» =>
+    cases decodeTop cfg S fin (toks.length + 1) toks <;>
+      intro h1 <;> simp [CastRelOut, CastRelOutV] at h1 ⊢
+  | err k =>
+    cases decodeTop cfg S fin (toks.length + 1) toks <;>
+      intro h1 <;> simp [CastRelOut, CastRelOutV] at h1 ⊢
+    exact h1
+  | panic s =>
+    cases decodeTop cfg S fin (toks.length + 1) toks <;>
+      intro h1 <;> simp [CastRelOut, CastRelOutV] at h1 ⊢
+    exact h1
+
 end Mxj
